@@ -1,1 +1,261 @@
-import PV.Model.Eval
+import PV.Proofs.EvalSim
+import PV.Proofs.Simple
+/-
+  C02 — property theorems.
+
+  `den` (PV/Model/Eval.lean) is the standard meaning: each node applies the Python operator it
+  denotes, bottom-up, operands in order.  `evalG` is the evaluator as coded, with the CSE result
+  cache and (flag `cached`) the memo table of `CachedMapper`; its agreement with the real code is
+  checked by the correspondence streams of harness/props/c02.py on every run.
+-/
+namespace PV.C02
+open PV
+
+variable {env : Env} {U : Expr → Prop}
+
+mutual
+theorem node_sim (hU : Universe U) (cached : Bool) :
+    ∀ e, U e → Sim env U (evalNode cached env e) (den env e)
+  | .const c, _ => by simp only [evalNode, den]; exact Sim.lift _
+  | .var x, _ => by
+      simp only [evalNode, den]
+      cases env.get x with
+      | none => exact Sim.throw _
+      | some v => exact Sim.pure _
+  | .nary .sum cs, h => by
+      simp only [evalNode, den]
+      exact fold_sim hU cached .sum (.int 0) cs (hU.closed _ h)
+  | .nary .prod cs, h => by
+      simp only [evalNode, den]
+      exact fold_sim hU cached .prod (.int 1) cs (hU.closed _ h)
+  | .nary .bor cs, h => by
+      simp only [evalNode, den]; exact reduce_sim hU cached .bor cs (hU.closed _ h)
+  | .nary .bxor cs, h => by
+      simp only [evalNode, den]; exact reduce_sim hU cached .bxor cs (hU.closed _ h)
+  | .nary .band cs, h => by
+      simp only [evalNode, den]; exact reduce_sim hU cached .band cs (hU.closed _ h)
+  | .nary .lor cs, h => by
+      simp only [evalNode, den]; exact any_sim hU cached cs (hU.closed _ h)
+  | .nary .land cs, h => by
+      simp only [evalNode, den]; exact all_sim hU cached cs (hU.closed _ h)
+  | .nary .min cs, h => by
+      simp only [evalNode, den]; exact minmax_sim hU cached true none cs (hU.closed _ h)
+  | .nary .max cs, h => by
+      simp only [evalNode, den]; exact minmax_sim hU cached false none cs (hU.closed _ h)
+  | .bin o a b, h => by
+      have ha : U a := hU.closed _ h a (by simp [Expr.children])
+      have hb : U b := hU.closed _ h b (by simp [Expr.children])
+      simp only [evalNode, den]
+      exact Sim.bind (Sim.memo hU ha (node_sim hU cached a ha)) fun x =>
+        Sim.bind (Sim.memo hU hb (node_sim hU cached b hb)) fun y => Sim.lift _
+  | .un .bnot a, h => by
+      have ha : U a := hU.closed _ h a (by simp [Expr.children])
+      simp only [evalNode, den]
+      exact Sim.bind (Sim.memo hU ha (node_sim hU cached a ha)) fun x => Sim.lift _
+  | .un .lnot a, h => by
+      have ha : U a := hU.closed _ h a (by simp [Expr.children])
+      simp only [evalNode, den]
+      exact Sim.bind (Sim.memo hU ha (node_sim hU cached a ha)) fun x =>
+        Sim.bind (Sim.lift _) fun t => Sim.pure _
+  | .cmp o a b, h => by
+      have ha : U a := hU.closed _ h a (by simp [Expr.children])
+      have hb : U b := hU.closed _ h b (by simp [Expr.children])
+      simp only [evalNode, den]
+      exact Sim.bind (Sim.memo hU ha (node_sim hU cached a ha)) fun x =>
+        Sim.bind (Sim.memo hU hb (node_sim hU cached b hb)) fun y => Sim.lift _
+  | .ite c t e, h => by
+      have hc : U c := hU.closed _ h c (by simp [Expr.children])
+      have ht : U t := hU.closed _ h t (by simp [Expr.children])
+      have he : U e := hU.closed _ h e (by simp [Expr.children])
+      simp only [evalNode, den]
+      exact Sim.bind (Sim.memo hU hc (node_sim hU cached c hc)) fun cv =>
+        Sim.bind (Sim.lift _) fun tv =>
+          Sim.ite (Sim.memo hU ht (node_sim hU cached t ht)) (Sim.memo hU he (node_sim hU cached e he))
+  | .call f as, h => by
+      have hf : U f := hU.closed _ h f (by simp [Expr.children])
+      have has : ∀ c ∈ as, U c := fun c hc => hU.closed _ h c (by simp [Expr.children, hc])
+      simp only [evalNode, den]
+      exact Sim.bind (Sim.memo hU hf (node_sim hU cached f hf)) fun fv =>
+        Sim.bind (list_sim hU cached as has) fun avs => Sim.lift _
+  | .callKw f as ns vs, h => by
+      have hf : U f := hU.closed _ h f (by simp [Expr.children])
+      have has : ∀ c ∈ as, U c := fun c hc => hU.closed _ h c (by simp [Expr.children, hc])
+      have hvs : ∀ c ∈ vs, U c := fun c hc => hU.closed _ h c (by simp [Expr.children, hc])
+      simp only [evalNode, den]
+      exact Sim.bind (list_sim hU cached as has) fun avs =>
+        Sim.bind (list_sim hU cached vs hvs) fun kvs =>
+          Sim.bind (Sim.memo hU hf (node_sim hU cached f hf)) fun fv => Sim.lift _
+  | .subscript a i, h => by
+      have ha : U a := hU.closed _ h a (by simp [Expr.children])
+      have hi : U i := hU.closed _ h i (by simp [Expr.children])
+      simp only [evalNode, den]
+      exact Sim.bind (Sim.memo hU ha (node_sim hU cached a ha)) fun x =>
+        Sim.bind (Sim.memo hU hi (node_sim hU cached i hi)) fun y => Sim.lift _
+  | .lookup a n, h => by
+      have ha : U a := hU.closed _ h a (by simp [Expr.children])
+      simp only [evalNode, den]
+      exact Sim.bind (Sim.memo hU ha (node_sim hU cached a ha)) fun x => Sim.lift _
+  | .cse c p sc, h => by
+      have hc : U c := hU.closed _ h c (by simp [Expr.children])
+      exact Sim.cse hU h (Sim.memo hU hc (node_sim hU cached c hc))
+  | .subst .., _ => by simp only [evalNode, den]; exact Sim.throw _
+  | .deriv .., _ => by simp only [evalNode, den]; exact Sim.throw _
+  | .slice _, _ => by simp only [evalNode, den]; exact Sim.throw _
+  | .nan, _ => by simp only [evalNode, den]; exact Sim.pure _
+  | .wildcard, _ => by simp only [evalNode, den]; exact Sim.throw _
+  | .dotWild _, _ => by simp only [evalNode, den]; exact Sim.throw _
+  | .starWild _, _ => by simp only [evalNode, den]; exact Sim.throw _
+  | .funcSym, _ => by simp only [evalNode, den]; exact Sim.throw _
+  | .tuple cs, h => by
+      simp only [evalNode, den]
+      exact Sim.bind (list_sim hU cached cs (hU.closed _ h)) fun vs => Sim.pure _
+  | .list cs, h => by
+      simp only [evalNode, den]
+      exact Sim.bind (list_sim hU cached cs (hU.closed _ h)) fun vs => Sim.pure _
+theorem fold_sim (hU : Universe U) (cached : Bool) (o : NaryOp) :
+    ∀ (acc : Value) (cs : List Expr), (∀ c ∈ cs, U c) →
+      Sim env U (evalFold cached env o acc cs) (denFold env o acc cs)
+  | acc, [], _ => by simp only [evalFold, denFold]; exact Sim.pure _
+  | acc, c :: cs, h => by
+      have hc : U c := h c (by simp)
+      simp only [evalFold, denFold]
+      exact Sim.bind (Sim.memo hU hc (node_sim hU cached c hc)) fun v =>
+        Sim.bind (Sim.lift _) fun acc' => fold_sim hU cached o acc' cs (fun c hc => h c (by simp [hc]))
+theorem reduce_sim (hU : Universe U) (cached : Bool) (o : NaryOp) :
+    ∀ (cs : List Expr), (∀ c ∈ cs, U c) →
+      Sim env U (evalReduce cached env o cs) (denReduce env o cs)
+  | [], _ => by simp only [evalReduce, denReduce]; exact Sim.throw _
+  | c :: cs, h => by
+      have hc : U c := h c (by simp)
+      simp only [evalReduce, denReduce]
+      exact Sim.bind (Sim.memo hU hc (node_sim hU cached c hc)) fun v =>
+        fold_sim hU cached o v cs (fun c hc => h c (by simp [hc]))
+theorem any_sim (hU : Universe U) (cached : Bool) :
+    ∀ (cs : List Expr), (∀ c ∈ cs, U c) → Sim env U (evalAny cached env cs) (denAny env cs)
+  | [], _ => by simp only [evalAny, denAny]; exact Sim.pure _
+  | c :: cs, h => by
+      have hc : U c := h c (by simp)
+      simp only [evalAny, denAny]
+      exact Sim.bind (Sim.memo hU hc (node_sim hU cached c hc)) fun v =>
+        Sim.bind (Sim.lift _) fun t =>
+          Sim.ite (Sim.pure _) (any_sim hU cached cs (fun c hc => h c (by simp [hc])))
+theorem all_sim (hU : Universe U) (cached : Bool) :
+    ∀ (cs : List Expr), (∀ c ∈ cs, U c) → Sim env U (evalAll cached env cs) (denAll env cs)
+  | [], _ => by simp only [evalAll, denAll]; exact Sim.pure _
+  | c :: cs, h => by
+      have hc : U c := h c (by simp)
+      simp only [evalAll, denAll]
+      exact Sim.bind (Sim.memo hU hc (node_sim hU cached c hc)) fun v =>
+        Sim.bind (Sim.lift _) fun t =>
+          Sim.ite (all_sim hU cached cs (fun c hc => h c (by simp [hc]))) (Sim.pure _)
+theorem minmax_sim (hU : Universe U) (cached : Bool) (isMin : Bool) :
+    ∀ (cur : Option Value) (cs : List Expr), (∀ c ∈ cs, U c) →
+      Sim env U (evalMinMax cached env isMin cur cs) (denMinMax env isMin cur cs)
+  | cur, [], _ => by
+      simp only [evalMinMax, denMinMax]
+      cases cur with
+      | none => exact Sim.throw _
+      | some m => exact Sim.pure _
+  | cur, c :: cs, h => by
+      have hc : U c := h c (by simp)
+      have hcs : ∀ c ∈ cs, U c := fun c hc => h c (by simp [hc])
+      simp only [evalMinMax, denMinMax]
+      refine Sim.bind (Sim.memo hU hc (node_sim hU cached c hc)) fun v => ?_
+      cases cur with
+      | none => exact minmax_sim hU cached isMin (some v) cs hcs
+      | some m =>
+        exact Sim.bind (Sim.lift _) fun better => minmax_sim hU cached isMin _ cs hcs
+theorem list_sim (hU : Universe U) (cached : Bool) :
+    ∀ (cs : List Expr), (∀ c ∈ cs, U c) → Sim env U (evalList cached env cs) (denList env cs)
+  | [], _ => by simp only [evalList, denList]; exact Sim.pure _
+  | c :: cs, h => by
+      have hc : U c := h c (by simp)
+      simp only [evalList, denList]
+      exact Sim.bind (Sim.memo hU hc (node_sim hU cached c hc)) fun v =>
+        Sim.bind (list_sim hU cached cs (fun c hc => h c (by simp [hc]))) fun vs => Sim.pure _
+end
+
+
+/-- **Main theorem.**  On any coherent universe of expressions (closed under children, Python `==`
+is identity, no Python lists) and from any evaluator state whose caches hold denotations, the
+evaluator as coded — plain (`cached = false`) or memoizing (`cached = true`) — returns exactly the
+standard meaning `den env e` (value *or* error), and keeps its caches sound. -/
+theorem evalG_eq_den (hU : Universe U) (cached : Bool) (e : Expr) (he : U e) (s : EvState)
+    (hs : EvInv env U s) :
+    ∃ s', evalG cached env e s = (den env e, s') ∧ EvInv env U s' :=
+  Sim.memo hU he (node_sim hU cached e he) s hs
+
+theorem evInv_empty : EvInv env U {} := by
+  constructor <;> intro k v h <;> simp at h
+
+/-- Every call in any history of calls on ONE evaluator instance returns the standard meaning,
+whatever was evaluated (or raised) before. -/
+theorem history_eq_den (hU : Universe U) (cached : Bool) :
+    ∀ (es : List Expr) (s : EvState), (∀ e ∈ es, U e) → EvInv env U s →
+      runHist cached env es s = es.map (den env)
+  | [], _, _, _ => by simp [runHist]
+  | e :: es, s, h, hs => by
+      obtain ⟨s', h1, i1⟩ := evalG_eq_den hU cached e (h e (by simp)) s hs
+      simp only [runHist, h1, List.map_cons]
+      rw [history_eq_den hU cached es s' (fun e he => h e (by simp [he])) i1]
+
+/-- The plain and the memoizing evaluator always agree (fresh instances, any history). -/
+theorem plain_eq_cached (hU : Universe U) (es : List Expr) (h : ∀ e ∈ es, U e) :
+    runHist (env := env) false es {} = runHist (env := env) true es {} := by
+  rw [history_eq_den hU false es {} h evInv_empty, history_eq_den hU true es {} h evInv_empty]
+
+/-- An arithmetic (or any other) error of the meaning surfaces as that error, never as a value. -/
+theorem error_never_value (hU : Universe U) (cached : Bool) (e : Expr) (he : U e) (s : EvState)
+    (hs : EvInv env U s) (k : Err) (hk : den env e = .error k) :
+    (evalG cached env e s).1 = .error k := by
+  obtain ⟨s', h1, _⟩ := evalG_eq_den hU cached e he s hs
+  rw [h1, hk]
+
+/-- Conditionals evaluate only the selected branch: the other one may be anything (e.g. erroring). -/
+theorem if_lazy_then (c t e : Expr) (cv : Value) (hc : den env c = .ok cv)
+    (ht : cv.truthy = .ok true) : den env (.ite c t e) = den env t := by
+  simp [den, hc, ht, bind, Except.bind]
+
+theorem if_lazy_else (c t e : Expr) (cv : Value) (hc : den env c = .ok cv)
+    (ht : cv.truthy = .ok false) : den env (.ite c t e) = den env e := by
+  simp [den, hc, ht, bind, Except.bind]
+
+/-- A missing variable is reported as an unknown-variable error naming it. -/
+theorem unknown_var_named (x : String) (hx : env.get x = none) :
+    den env (.var x) = .error (.unknownVar x) := by
+  simp [den, hx]; rfl
+
+/-- A common subexpression means its child. -/
+theorem cse_means_child (c : Expr) (p : Option String) (sc : String) :
+    den env (.cse c p sc) = den env c := by
+  simp [den]
+
+/-- The syntactic universe of `PV/Proofs/Simple.lean` instantiates the main theorem: for all
+expressions without bool/float constants, keyword calls and Python lists. -/
+theorem evalG_eq_den_simple (cached : Bool) (e : Expr) (he : e.simple = true) :
+    (evalG cached env e {}).1 = den env e := by
+  obtain ⟨s', h1, _⟩ := evalG_eq_den universe_simple cached e he {} evInv_empty
+  rw [h1]
+
+/-- Known finding, stated formally: the memoizing evaluator raises `TypeError` on every expression
+that is or contains a Python list (the cache key is unhashable), whatever its meaning. -/
+theorem cached_list_raises (e : Expr) (s : EvState) (h : e.hasList = true) :
+    evalG true env e s = (.error .typeError, s) := by
+  simp [evalG, withMemo, h]
+
+/-- … while the meaning of such an expression can be a perfectly good value (witness). -/
+example : den [] (.list [.const (.int 1)]) = .ok (.list [.int 1]) := by rfl
+
+/-- Non-vacuity: a non-trivial expression with a shared common subexpression, a conditional and a
+call lies in the simple universe, and both evaluators compute its meaning. -/
+example :
+    let cse := Expr.cse (.nary .sum [.var "x", .const (.int 1)]) none "s"
+    let e := Expr.ite (.cmp .lt cse (.const (.int 5)))
+               (.nary .prod [cse, cse]) (.call (.var "f") [cse])
+    e.simple = true ∧
+    (evalG true [("x", .int 2)] e {}).1 = .ok (.int 9) ∧
+    (evalG false [("x", .int 2)] e {}).1 = .ok (.int 9) := by
+  refine ⟨by decide, ?_, ?_⟩ <;>
+  · rw [evalG_eq_den_simple _ _ (by decide)]; rfl
+
+end PV.C02
